@@ -1,8 +1,10 @@
 (* Properties_C02.v — C02: sam toPairAlign reconstructs each pairwise alignment losslessly.
-   PARTIAL: proved are the paired CIGAR walk (all operators, with and without insertion columns) and the
-   one-record rows; the multi-record re-gapping loop, flattening, right-extension and the window cut are an
-   executable Coq model compared byte for byte with sam.ToPairAlign, and the implementation's files are
-   compared with pairs written from the statement. *)
+   PARTIAL: proved are the paired CIGAR walk (all operators, with and without insertion columns), the
+   one-record rows, and — for every query described by one SAM record — the whole block_to_seq_pair pipeline
+   (re-gapping, flattening, right-extension): the reference row degaps to the reference and both rows have
+   length |ref| + total inserted bases.  The multi-record re-gapping loop and the window cut are an executable
+   Coq model compared byte for byte with sam.ToPairAlign, and the implementation's files are compared with
+   pairs written from the statement. *)
 From GF Require Import Base Alphabet SymbolsDef FastaModel Cigar SamModel TopaModel TopaProofs.
 Open Scope N_scope.
 
@@ -17,6 +19,12 @@ Theorem C02_one_record_rows : forall rc ref qrow rrow, ~ In 45 ref ->
   length qrow = length rrow /\ degap rrow = firstn (s_pos rc + ref_span (s_cigar rc)) ref.
 Proof. exact one_line_plus_ref_rows. Qed.
 Print Assumptions C02_one_record_rows.
+
+Theorem C02_pair1_degap_ref : forall ref rc R Q, ~ In 45 ref ->
+  block_to_seq_pair ref [rc] = Some (R, Q) ->
+  degap R = ref /\ length R = (length ref + ins_total (s_cigar rc))%nat /\ length Q = length R.
+Proof. exact pair1_degap_ref. Qed.
+Print Assumptions C02_pair1_degap_ref.
 
 Example C02_example :
   block_to_seq_pair (bs "ACGTACGTAC") [ {| s_name := bs "q"; s_flag := 0; s_pos := 1%nat;
